@@ -122,7 +122,40 @@ def corpus_cases():
 
 
 # ---------------------------------------------------------------- upstream corpus, model-free predicates (thorough)
-_OUT_WORDS = ("invalid", "all_measures", "all")
+_OUT_WORDS = ("all_measures", "invalid", "all")
+_CALL = re.compile(r"\b(check_datapoint|check_hierarchy|check)\s*\(")
+
+
+def set_output(script: str, out: str) -> str:
+    """rewrites the output option of every validation operator call of the script"""
+    res, pos = [], 0
+    while True:
+        m = _CALL.search(script, pos)
+        if not m:
+            res.append(script[pos:])
+            return "".join(res)
+        i, depth = m.end(), 1
+        while i < len(script) and depth:
+            depth += {"(": 1, ")": -1}.get(script[i], 0)
+            i += 1
+        if depth:
+            res.append(script[pos:])
+            return "".join(res)
+        inner = script[m.end():i - 1].rstrip()
+        for w in _OUT_WORDS:
+            if re.search(r"(?<![A-Za-z0-9_])" + w + "$", inner):
+                inner = inner[:-len(w)].rstrip()
+                break
+        o = "all" if (m.group(1) == "check" and out == "all_measures") else out
+        res.append(script[pos:m.end()] + inner + " " + o + ")")
+        pos = i
+
+
+def _tab(d):
+    names = [x[0] for x in d["comps"]]
+    idn = [x[0] for x in d["comps"] if x[1] == "Identifier"]
+    rows = [dict(zip(names, r)) for r in d["rows"]]
+    return names, idn, {tuple(r[q] for q in idn): r for r in rows}, len(rows)
 
 
 def upstream(ctx, limit):
@@ -130,30 +163,51 @@ def upstream(ctx, limit):
     cs = corpus.enumerate_cases(dirs=["tests/DatapointRulesets/", "tests/Hierarchical/", "tests/Validation/", "tests/ReferenceManual/"])
     n = ok = checked = 0
     for c in cs:
-        if not re.search(r"check_datapoint|check_hierarchy|\bcheck\s*\(", c.script):
+        if not _CALL.search(c.script):
             continue
         if limit and n >= limit:
             break
         n += 1
-        r = corpus.run_corpus_case(c)
-        if not r["ok"]:
+        runs = {}
+        for out in ("invalid", "all", "all_measures"):
+            c2 = corpus.Case(c.id, set_output(c.script, out), c.structures, c.datapoints)
+            runs[out] = corpus.run_corpus_case(c2)
+        ctx.count("upstream:" + c.id)
+        if not all(r["ok"] for r in runs.values()):
             continue
         ok += 1
-        for name, d in r["datasets"].items():
-            names = [x[0] for x in d["comps"]]
-            if "bool_var" in names and "errorcode" in names:
-                checked += 1
-                ib, ic, il = names.index("bool_var"), names.index("errorcode"), names.index("errorlevel")
-                for row in d["rows"]:
-                    if row[ib] is not False and (row[ic] is not None or row[il] is not None):
-                        ctx.violation("upstream-corpus:errorcode-set-where-not-false", f"{c.id} {name}: {row}", {"corpus_case": c.id, "row": list(row)})
-                        break
-                idn = [x[0] for x in d["comps"] if x[1] == "Identifier"]
-                keys = [tuple(row[names.index(q)] for q in idn) for row in d["rows"]]
-                if len(set(keys)) != len(keys):
-                    ctx.violation("upstream-corpus:duplicate-keys", f"{c.id} {name}", {"corpus_case": c.id})
-        ctx.count("upstream:" + c.id)
-    ctx.cov["upstream_corpus"] = {"scripts_with_validation_operators": n, "ran_ok": ok, "result_datasets_checked": checked}
+        for name, dall in runs["all"]["datasets"].items():
+            names, idn, a_by, na = _tab(dall)
+            if "bool_var" not in names:
+                continue
+            checked += 1
+            rep = {"corpus_case": c.id, "dataset": name}
+            if len(a_by) != na:
+                ctx.violation("upstream-corpus:duplicate-keys", f"{c.id} {name}: duplicate identifier keys in `all`", rep)
+            if "errorcode" in names and "errorlevel" in names:
+                bad = [k for k, r in a_by.items() if r["bool_var"] is not False and (r["errorcode"] is not None or r["errorlevel"] is not None)]
+                if bad:
+                    ctx.violation("upstream-corpus:errorcode-set-where-not-false", f"{c.id} {name}: {bad[0]}", rep)
+            dinv = runs["invalid"]["datasets"].get(name)
+            if dinv is not None:
+                n2, id2, i_by, _ = _tab(dinv)
+                if id2 == idn and "bool_var" not in n2:
+                    fk = {k for k, r in a_by.items() if r["bool_var"] is False}
+                    if set(i_by) != fk:
+                        ctx.violation("upstream-corpus:invalid-differs-from-false-rows-of-all",
+                                      f"{c.id} {name}: invalid-only {sorted(set(i_by) - fk, key=str)[:2]}, false-only {sorted(fk - set(i_by), key=str)[:2]}", rep)
+                elif id2 == idn and "bool_var" in n2:   # check(): bool_var is kept in invalid
+                    fk = {k for k, r in a_by.items() if r["bool_var"] is False}
+                    if set(i_by) != fk:
+                        ctx.violation("upstream-corpus:invalid-differs-from-false-rows-of-all", f"{c.id} {name} (check)", rep)
+            dam = runs["all_measures"]["datasets"].get(name)
+            if dam is not None:
+                n3, id3, m_by, _ = _tab(dam)
+                if id3 == idn and "bool_var" in n3 and (set(m_by) != set(a_by) or any(m_by[k]["bool_var"] != a_by[k]["bool_var"] for k in a_by)):
+                    ctx.violation("upstream-corpus:all_measures-differs-from-all", f"{c.id} {name}", rep)
+    ctx.cov["upstream_corpus"] = {"scripts_with_validation_operators": n, "ran_ok_in_all_three_outputs": ok, "result_datasets_checked": checked}
+    ctx.oblige("upstream corpus (tests/DatapointRulesets, Hierarchical, Validation, ReferenceManual): some result dataset could be checked", checked > 0 or bool(limit),
+               f"{n} scripts, {ok} ran, {checked} checked")
 
 
 def run(ctx):
